@@ -38,7 +38,7 @@ func (s *SSTableManager) reflectCompactionResult(m *proto.CompactionMetadata) er
 				}
 				// this is actually a "neuralgic" point in terms of recovery, we know that the SSTable backed by newReader
 				// contains the whole data of all the SSTables we're about to remove. So it's safe to delete them here.
-				err = os.RemoveAll(filepath.Join(s.basePath, p))
+				err = removeSSTable(filepath.Join(s.basePath, p))
 				if err != nil {
 					return err
 				}
